@@ -247,8 +247,21 @@ Receive(s, v, m) ==
            [] m.type = "RecoveryRequest" -> OnRecoveryRequest(s, v, m.from, m.view)
            [] OTHER -> s
 
+\* cheap pre-filter (relevance pruning, no effect on the reachable states): a hand-over that cannot change v's state or make it
+\* send anything is a stuttering step and is not generated
+Relevant(m, v) ==
+    LET s == st[v] IN
+    IF s.acc # None THEN m.type = "RecoveryRequest" /\ rc < MaxRec
+    ELSE CASE m.type = "PrepareRequest" -> m.view = s.view /\ ~HasReq(s)
+           [] m.type = "PrepareResponse" -> m.view = s.view /\ m.from \notin s.prep
+           [] m.type = "Commit" -> m.view <= s.view /\ ~\E c \in s.cmt : c.from = m.from
+           [] m.type = "ChangeView" -> IF m.view > s.view /\ ~Committed(s, v) THEN ~\E c \in s.cv : c.from = m.from /\ c.nv >= m.view
+                                       ELSE rc < MaxRec
+           [] m.type = "RecoveryRequest" -> rc < MaxRec /\ m.view <= s.view
+           [] OTHER -> TRUE
+
 Deliver(m, v) ==
-    /\ v \notin silent /\ m \in msgs /\ m.from # v
+    /\ v \notin silent /\ m \in msgs /\ m.from # v /\ Relevant(m, v)
     /\ Commit(v, Receive(st[v], v, m))
 
 \* A block accepted (and stored) by somebody reaches v through ordinary block synchronisation.
